@@ -19,6 +19,7 @@ from ufl.classes import (
     Index,
     Label,
     MultiIndex,
+    Zero,
 )
 from ufl.core.ufl_type import UFLObject
 from ufl.corealg.traversal import traverse_unique_terminals, unique_post_traversal
@@ -58,6 +59,18 @@ def compute_terminal_hashdata(expressions, renumbering):
                 # Indices need a canonical numbering for a stable
                 # signature, thus this algorithm
                 data = compute_multiindex_hashdata(expr, index_numbering)
+
+            elif isinstance(expr, Zero) and expr.ufl_free_indices:
+                # The free indices of a Zero are raw index counts: number
+                # them like the indices of a MultiIndex
+                numbered = compute_multiindex_hashdata(
+                    [Index(count=i) for i in expr.ufl_free_indices], index_numbering
+                )
+                data = (
+                    "Zero",
+                    expr.ufl_shape,
+                    tuple(sorted(zip(numbered, expr.ufl_index_dimensions))),
+                )
 
             elif isinstance(expr, ConstantValue):
                 data = expr._ufl_signature_data_(renumbering)
